@@ -1,1 +1,92 @@
-From QS Require Import theories.Sizer.
+(** C10 — Long-only sizing never budgets more than the cash-buffered equity. *)
+From Coq Require Import ZArith QArith Qabs String List.
+From QS Require Import theories.Num theories.Position theories.Portfolio theories.Fees theories.Sizer
+  proofs.SizerProofs.
+Import ListNotations.
+Open Scope Q_scope.
+
+(** For every cash-buffered equity E >= 0, normalised weight w >= 0 and price > 0, with
+    A = E x w the asset's share: the target quantity q is the whole number with
+      q x price + fees(A) <= A < (q + 1) x price + fees(A)
+    (cost plus estimated fees fits, one more share would not), and q >= 0 whenever the fees do
+    not exceed the allocation. *)
+Theorem qty_floor :
+  forall E fee w price, 0 <= E -> 0 <= w -> 0 < price ->
+    let A := E * w in
+    inject_Z (lo_qty E fee w price) * price + fee_total fee A <= A /\
+    A < (inject_Z (lo_qty E fee w price) + 1) * price + fee_total fee A /\
+    (fee_total fee A <= A -> (0 <= lo_qty E fee w price)%Z).
+Proof. exact lo_qty_spec. Qed.
+Print Assumptions qty_floor.
+
+(** the hypothesis the proof forces: fee rates summing to at most 100 % *)
+Theorem percent_fee_within_allocation :
+  forall c t A, 0 <= A -> 0 <= c -> 0 <= t -> c + t <= 1 -> fee_total (PercentFee c t) A <= A.
+Proof. exact percent_fee_le. Qed.
+Print Assumptions percent_fee_within_allocation.
+
+(** the whole target costs (shares + estimated fees) at most E x (sum of the weights used) ... *)
+Theorem budget :
+  forall E fee price, 0 <= E -> forall w l,
+    Forall (fun aw => 0 <= snd aw) w -> price_of_all price w ->
+    size_all (lo_qty E fee) price w = Ok l ->
+    spent E fee price w l <= E * qsum (map snd w) /\ map fst l = map fst w /\
+    Forall2 (fun aw aq => exists p, price (fst aw) = Some p /\ snd aq = lo_qty E fee (snd aw) p) w l.
+Proof. exact lo_budget_list. Qed.
+Print Assumptions budget.
+
+(** ... and the weights used sum to exactly 1 unless the raw sum is ~0 (|sum| <= binary64 1e-8),
+    in which case the raw weights are used as they are (the documented "unless ~0" regime). *)
+Theorem normalisation :
+  forall w nw, lo_normalise w = Ok nw ->
+    (nw = w /\ isclose0 (qsum (map snd w)) = true) \/
+    (qsum (map snd nw) == 1 /\ isclose0 (qsum (map snd w)) = false /\
+     nw = map (fun aw => (fst aw, snd aw / qsum (map snd w))) w).
+Proof. exact lo_normalised_sum. Qed.
+Print Assumptions normalisation.
+Theorem accepted_weights_are_nonnegative :
+  forall w nw, lo_normalise w = Ok nw -> Forall (fun aw => 0 <= snd aw) w.
+Proof. exact lo_normalise_nonneg. Qed.
+Print Assumptions accepted_weights_are_nonnegative.
+
+Theorem zero_weight_zero_quantity : forall E fee p, 0 < p -> lo_qty E fee 0 p = 0%Z.
+Proof. exact lo_zero_qty. Qed.
+Print Assumptions zero_weight_zero_quantity.
+
+(** rejections *)
+Theorem negative_weight_rejected :
+  forall equity buffer fee price w a x,
+    In (a, x) w -> x < 0 -> lo_size equity buffer fee price w = Err NegativeWeight.
+Proof. exact lo_rejects_negative. Qed.
+Print Assumptions negative_weight_rejected.
+Theorem buffer_outside_unit_interval_rejected : forall b, b < 0 \/ 1 < b -> lo_check_buffer b = Err BadBuffer.
+Proof. exact lo_rejects_buffer. Qed.
+Print Assumptions buffer_outside_unit_interval_rejected.
+Theorem buffer_in_unit_interval_accepted : forall b, 0 <= b <= 1 -> lo_check_buffer b = Ok b.
+Proof. exact lo_accepts_buffer. Qed.
+Print Assumptions buffer_in_unit_interval_accepted.
+Theorem unavailable_price_rejected :
+  forall f price w, (exists a x, In (a, x) w /\ price a = None) -> exists e, size_all f price w = Err e.
+Proof. exact size_all_nan. Qed.
+Print Assumptions unavailable_price_rejected.
+Theorem sizing_loop_fails_only_for_a_missing_price :
+  forall f price w e, size_all f price w = Err e -> e = NanPrice.
+Proof. exact size_all_err_is_nan. Qed.
+Print Assumptions sizing_loop_fails_only_for_a_missing_price.
+
+(** Without the hypothesis c + t <= 1 non-negativity is false (known finding K1). *)
+Example fee_over_100_refuted :
+  (lo_qty (1000000 # 1) (PercentFee (3 # 5) (3 # 5)) 1 (10 # 1) < 0)%Z.
+Proof. vm_compute. reflexivity. Qed.
+Print Assumptions fee_over_100_refuted.
+
+(** Non-vacuity: the first parametrised case of the unit tests (1e6, 5% buffer, 3 assets). *)
+Definition pr10 (a : string) : option Q :=
+  if String.eqb a "EQ:SPY" then Some (250 # 1) else if String.eqb a "EQ:TLT" then Some (50 # 1)
+  else if String.eqb a "EQ:GLD" then Some (100 # 1) else None.
+Example sizing_nonvacuous :
+  lo_size (1000000 # 1) (5 # 100) ZeroFee pr10
+          [("EQ:SPY"%string, 1 # 2); ("EQ:TLT"%string, 1 # 4); ("EQ:GLD"%string, 1 # 4)] =
+  Ok [("EQ:GLD"%string, 2375%Z); ("EQ:SPY"%string, 1900%Z); ("EQ:TLT"%string, 4750%Z)].
+Proof. vm_compute. reflexivity. Qed.
+Print Assumptions sizing_nonvacuous.
